@@ -276,7 +276,8 @@ class FacebookPhoto(FacebookParsedItem):
         if self.group_id:
             return urljoin(
                 BASE_FACEBOOK_URL,
-                "/photo.php?fbid=%s&set=g.%s" % (self.id, self.group_id),
+                "/photo.php?fbid=%s&set=g.%s" % (self.id, self.group_id)
+                + ("&set=a.%s" % self.album_id if self.album_id else ""),
             )
 
         if self.parent_id:
@@ -289,6 +290,12 @@ class FacebookPhoto(FacebookParsedItem):
             return urljoin(
                 BASE_FACEBOOK_URL,
                 "/%s/photos/a.%s/%s" % (self.parent_handle, self.album_id, self.id),
+            )
+
+        if self.album_id:
+            return urljoin(
+                BASE_FACEBOOK_URL,
+                "/photo.php?fbid=%s&set=a.%s" % (self.id, self.album_id),
             )
 
         return urljoin(BASE_FACEBOOK_URL, "/photo.php?fbid=%s" % self.id)
